@@ -3,7 +3,8 @@
 import sys,re,subprocess
 f=sys.argv[1]
 L=open(f).read().split('\n')
-out=[l for l in L if not l.startswith('(assert (= qa_') and 'forall ((k Int))' not in l and '(forall ((s Str))' not in l]
+import re as _re
+out=[(('(assert '+_re.match(r'\(assert \(= (qa_\d+) ',l).group(1)+')') if l.startswith('(assert (= qa_') else l) for l in L if 'forall ((k Int))' not in l and '(forall ((s Str))' not in l]
 open('/var/tmp/dbg.smt2','w').write('\n'.join(out))
 r=subprocess.run(['z3-new','-T:60','/var/tmp/dbg.smt2'],capture_output=True,text=True).stdout
 print('result:',r.split('\n')[0])
